@@ -228,8 +228,10 @@ fn clean_mrow_children_restructure_pass<'a>(old_children: &[Element<'a>]) -> Opt
     /// This is to make ascertaining whether this is a chemical state easier, but it is correct even if not a chemical state.
     fn make_mrow(children: [Element; 3]) -> Option<Element> {
         // this is a little sloppy in that we allow matching text in any leaf element, but we can use the same function
+        //  (the child in the middle must not be a parenthesis itself: in "( ) )" the first two are the pair)
         if is_text(children[0], "(") &&
-           is_text(children[2], ")") {
+           is_text(children[2], ")") &&
+           !is_text(children[1], "(") && !is_text(children[1], ")") {
 			let mrow = create_mathml_element(&children[0].document(), "mrow");
 			mrow.set_attribute_value(CHANGED_ATTR, ADDED_ATTR_VALUE);
 			mrow.append_children(children);
